@@ -44,9 +44,12 @@ ASSIGN = {
     "halfpow": (S.val_primes(S.PRIMES_X), S.val_halfpow(2), {"mulexact", "divexact", "powtol"}, ("C", "view")),
     "signed2": (S.val_signed(3), S.val_signed(6), {"add", "unary"}, ("F", "C")),
     "base2": (S.val_base(7, 3), S.val_base(3, 1), {"add", "mulexact", "scalar"}, ("transposed", "transposed")),
+    "intx": (S.val_base(4, 1), S.val_base(5, 7), {"add", "mulexact", "scalar", "unary"}, ("Cint", "C")),
+    "inty": (S.val_base(3, 2), S.val_base(4, 1), {"add", "mulexact", "divtol"}, ("view", "Cint")),
+    "tiny": (S.scaled(S.val_pow2(0), 2.0 ** -70), S.scaled(S.val_pow2(1), 2.0 ** -70), {"add", "unary", "scalartiny"}, ("C", "F")),
     "halfpow2": (S.val_halfpow(5), S.val_halfpow(0), {"mulexact", "divexact", "add"}, ("view", "F")),
 }
-QUICK_ASSIGN = ("pow2", "signed", "primes", "halfpow", "base")
+QUICK_ASSIGN = ("pow2", "signed", "primes", "halfpow", "base", "intx", "inty", "tiny")
 TOL = 1e-14
 
 
@@ -64,8 +67,10 @@ def _ops():
     ops["x**y frac"] = ("powtol", lambda X, Y: X ** Y, lambda x, y: R.power(x, y), TOL)
     for sn, s in SCALARS.items():
         fs = float(s)
-        for group in ("scalar", "scalarsigned"):
-            g = "" if group == "scalar" else " (signed)"
+        for group in ("scalar", "scalarsigned", "scalartiny"):
+            g = {"scalar": "", "scalarsigned": " (signed)", "scalartiny": " (tiny)"}[group]
+            if group == "scalartiny" and sn != "float.5":
+                continue
             ops[f"x+{sn}{g}"] = (group, lambda X, Y, s=s: X + s, lambda x, y, fs=fs: R.elementwise(x, lambda v: v + fs), 0.0)
             ops[f"{sn}+x{g}"] = (group, lambda X, Y, s=s: s + X, lambda x, y, fs=fs: R.elementwise(x, lambda v: fs + v), 0.0)
             ops[f"x-{sn}{g}"] = (group, lambda X, Y, s=s: X - s, lambda x, y, fs=fs: R.elementwise(x, lambda v: v - fs), 0.0)
@@ -86,7 +91,7 @@ def _ops():
 
 
 OPS = _ops()
-Y_INDEPENDENT = {"scalar", "scalarsigned", "unary"}
+Y_INDEPENDENT = {"scalar", "scalarsigned", "scalartiny", "unary"}
 
 
 def bounds(tier):
